@@ -585,3 +585,8 @@ with open("src/gen_schema.rs", "w") as fh:
     fh.write("\n".join(elem_schema))
     fh.write("\n}\n")
 print("generated %d FromMeta receivers and %d element-level receivers" % (len(meta_names), len(elem_names)))
+
+# every receiver and everything that mentions it goes behind `#[cfg(not(skip = "NAME"))]`
+import cfg_corpus  # noqa: E402
+
+cfg_corpus.main()
